@@ -35,7 +35,7 @@ def _inline_only_helper(model: Model, qualname: str, name: str) -> bool:
     """A method the reference tree does not have and that is only ever *called* (never passed as a value, e.g. to _submit)."""
     from .symeval import _known_api
     known = _known_api()
-    if not known or qualname in known:
+    if not known or qualname in known or qualname in model.aliases().values():
         return False
     fi = model.func(qualname)
     tree = model.modules[fi.module].tree if hasattr(model.modules[fi.module], "tree") else None
